@@ -22,6 +22,8 @@ META = {
         "C09.W1 blocking ByteQueue waits reachable from the HSMS receiver thread are non-blocking by a dominating length test, bounded, or woken by the stop path",
         "C09.W2 spin-wait handshakes: the owning thread resets/sets the flag on every exit; the waiter's early return tests the same flag",
         "C09.W3 receiver/dispatcher trigger discipline (no lost wake-up of the thread that must send Separate.req)",
+        "C09.P6 a passive endpoint restarts its accepting thread only after the old link's disconnect handling is complete",
+        "C09.P5 the reader suspension flag (_disconnecting) is lowered on every path on which a method raised it",
         "C09.P1 _on_disconnected (HSMS and SECS-I): thread stop + buffer clear on every path; HSMS also disconnect transition and connected flag; ByteQueue.clear empties under the lock",
         "C09.P2 close sequence order and containment in TcpConnection.__receiver_thread and SerialConnection._receiver_thread_function",
         "C09.P3 zero-length recv sets the loop's stop flag and clears the connected flag; reconnect is re-armed from on_disconnected while enabled",
@@ -765,7 +767,93 @@ def check_socket_lifecycle(ctx):
     ctx.ob("C09.P4", sfn.qualname, ok, "the accepted socket is stored before it is configured and served" if ok else "the accepted socket is configured / served before it is stored", key="accepted-socket-first", where=sfn.where)
 
 
+def check_read_suspension(ctx, rule="C09.P5"):
+    """The socket reader stands still while `_disconnecting` is raised (so that the close sequence can write its
+    Separate.req undisturbed).  Raising and lowering are paired: every normal path from a store of True to the end of the
+    method passes a store of False - otherwise one disable() without a live connection stops all later reading, and the
+    next connection's Select.req is never answered."""
+    repo = ctx.repo
+    cls = repo.cls("TcpConnection")
+    flag = "self._disconnecting"
+    n = 0
+    readers = [f for f in cls.methods.values() if any(isinstance(t, (ast.If, ast.While)) and any(dotted(a) == flag for a in ast.walk(t.test) if isinstance(a, ast.Attribute)) for t in ast.walk(f.node))]
+    ctx.require(readers, "TcpConnection: no method tests self._disconnecting - the read-suspension rule has lost its anchor")
+    for f in cls.methods.values():
+        fn = normal.normalised(ctx, f, aliases=False, comps=False, ifexp=False)
+        cfg = cfg_of(fn)
+        ups = [x for x in cfg.real_nodes() if isinstance(x.ast, ast.Assign) and any(dotted(t) == flag for t in x.ast.targets) and rules.literal(fn, x.ast.value) == (True, True)]
+        downs = [x for x in cfg.real_nodes() if isinstance(x.ast, ast.Assign) and any(dotted(t) == flag for t in x.ast.targets) and rules.literal(fn, x.ast.value) == (True, False)]
+        if not ups or f.name == "__init__":
+            continue
+        n += 1
+        ctx.touch(f)
+        stuck = [u for u in ups if cfg.path_exists(u, cfg.exit, avoid=downs, no_exc=True)]
+        ctx.ob(rule, f.qualname, not stuck, f"{f.name}() lowers {flag} again on every path on which it raised it" if not stuck else
+               f"`{stuck[0].text()}` in {f.name}() is followed by a return without `{flag} = False`: the reader thread of every later connection skips its reads - nothing the peer sends is ever answered",
+               key="suspension-paired", where=f.where)
+    ctx.floor("methods that suspend the reader", n, 1)
+
+
+def _starts_accepting(fn, starters, accepting) -> bool:
+    """The (expanded) function starts a thread whose target accepts connections, directly or through a starter method."""
+    for k in calls_in(fn):
+        cn = call_name(k) or ""
+        if cn.split(".")[-1] in starters:
+            return True
+        if cn == "threading.Thread":
+            tgt = next((x.value for x in k.keywords if x.arg == "target"), None)
+            if tgt is not None and dotted(tgt) in {f"self.{a}" for a in accepting}:
+                return True
+    return False
+
+
+def check_rearm_order(ctx):
+    """C09.P6: a passive endpoint listens again only when the old link's handling is complete.  The connection's
+    `on_disconnected` callbacks run in registration order on the old receiver thread, which lowers its own flags only
+    afterwards; a callback registered in the connection's constructor therefore runs before every callback the protocol
+    registers later.  If that first callback starts the accepting thread, a peer that reconnects at once is accepted while
+    the protocol still resets the session for the old link - the new link ends up NOT CONNECTED and unanswered."""
+    repo = ctx.repo
+    cls = repo.cls("TcpServerConnection")
+    init = cls.methods.get("__init__")
+    ctx.require(init is not None, "TcpServerConnection.__init__ not found")
+    ctx.touch(init)
+    targets = thread_targets(repo, cls)
+    accepting = {name for name, f in targets.items() if any((call_name(c) or "").endswith(".accept") for c in calls_in(f.node))}
+    ctx.require(accepting, "TcpServerConnection: no thread function that accepts connections - the re-arm rule has lost its anchor")
+    starters = {m.name for m in cls.methods.values() if any((call_name(c) or "") == "threading.Thread" and dotted(next((k.value for k in c.keywords if k.arg == "target"), None) or ast.Constant(value=None)) in {f"self.{a}" for a in accepting}
+                                                          for c in calls_in(m.node))}
+    early = []
+    for c in calls_in(init.node):
+        if (call_name(c) or "") == "self.on_disconnected.register" and c.args:
+            h = dotted(c.args[0]) or ""
+            hm = cls.find_method(h.split(".", 1)[1]) if h.startswith("self.") else None
+            if hm is not None and _starts_accepting(inline.expanded(ctx, hm), starters, accepting):
+                early.append(hm)
+    for st in rules.func_stmts(init.node):
+        if isinstance(st, ast.AugAssign) and dotted(st.target) == "self.on_disconnected" and (dotted(st.value) or "").startswith("self."):
+            hm = cls.find_method(dotted(st.value).split(".", 1)[1])
+            if hm is not None and _starts_accepting(inline.expanded(ctx, hm), starters, accepting):
+                early.append(hm)
+    rt = repo.method("TcpConnection", "__receiver_thread", inherited=False)
+    ctx.touch(rt)
+    rfn = inline.expanded(ctx, rt)  # the notifications may sit in private helpers
+    rcfg = cfg_of(rfn)
+    fire = [n for n in rcfg.real_nodes() if any(c == "self.on_disconnected" for c in n.call_names())]
+    resets = [n for n in rcfg.real_nodes() if isinstance(n.ast, ast.Assign) and any(dotted(t) in ("self._connected", "self._thread_running") for t in n.ast.targets)
+              and rules.literal(rfn, n.ast.value) == (True, False)]
+    ctx.require(fire, "TcpConnection.__receiver_thread: the on_disconnected notification was not found")
+    resets_after = [r for r in resets if any(rcfg.path_exists(f, r) for f in fire)]
+    bad = bool(early) and bool(resets_after)
+    ctx.ob("C09.P6", "TcpServerConnection.__init__", not bad, "the accepting thread is not restarted before the old link's handling is complete" if not bad else
+           f"`{early[0].name}` is registered on on_disconnected in the constructor - ahead of every callback of the protocol - and restarts the accepting thread, while {rt.qualname} lowers "
+           f"`{resets_after[0].text()}` only after the callbacks: a peer that reconnects at once is accepted during the old link's disconnect handling, which then resets the session under the new link",
+           key="rearm-before-reset", where=init.where)
+
+
 def run(ctx):
+    check_read_suspension(ctx)
+    check_rearm_order(ctx)
     check_on_disconnected(ctx)
     check_close_sequence(ctx)
     check_read_loop(ctx)
